@@ -83,6 +83,35 @@ theorem inCommon_symm {s t : Tri} (hs : TriNondeg s) (ht : TriNondeg t) : inComm
 theorem fanAdj_symm {s t : Face} (hs : TriNondeg s.2) (ht : TriNondeg t.2) : fanAdj s t = fanAdj t s := by
   simp only [fanAdj, inCommon_symm hs ht]
 
+/-- On non-degenerate faces at `v` the adjacency used by the fan search (two or more common
+corners) is "share an edge at `v`": a common vertex other than `v` — the adjacency of
+`ptrCoord.Clusters`. -/
+theorem fanAdj_eq_adjAt {v : Nat} {s t : Face} (hs : TriNondeg s.2)
+    (hvs : hasVert v s.2 = true) (hvt : hasVert v t.2 = true) : fanAdj s t = adjAt v s t := by
+  obtain ⟨i, a, b, c⟩ := s
+  obtain ⟨j, d, e, f⟩ := t
+  obtain ⟨h1, h2, h3⟩ := hs
+  simp only at h1 h2 h3
+  simp only [hasVert, triVerts, List.contains_cons, List.contains_nil, Bool.or_false, Bool.or_eq_true,
+    beq_iff_eq] at hvs hvt
+  rw [Bool.eq_iff_iff]
+  simp only [fanAdj, adjAt, inCommon_eq, hasVert, triVerts, List.any_cons, List.any_nil, Bool.or_false,
+    List.contains_cons, List.contains_nil, Bool.or_eq_true, Bool.and_eq_true, bne_iff_ne, beq_iff_eq,
+    decide_eq_true_eq, ne_eq]
+  rcases hvs with rfl | rfl | rfl
+  · simp only [hvt, if_true, not_true_eq_false, false_and, false_or]
+    have hb : ¬ b = v := fun h => h1 h.symm
+    simp only [hb, h3, not_false_eq_true, true_and]
+    by_cases hb' : b = d ∨ b = e ∨ b = f <;> by_cases hc' : c = d ∨ c = e ∨ c = f <;> simp [hb', hc']
+  · simp only [hvt, if_true, not_true_eq_false, false_and, false_or]
+    have hc : ¬ c = v := fun h => h2 h.symm
+    simp only [h1, hc, not_false_eq_true, true_and]
+    by_cases hb' : a = d ∨ a = e ∨ a = f <;> by_cases hc' : c = d ∨ c = e ∨ c = f <;> simp [hb', hc']
+  · simp only [hvt, if_true, not_true_eq_false, false_and, or_false]
+    have hac : ¬ a = v := fun h => h3 h.symm
+    simp only [hac, h2, not_false_eq_true, true_and]
+    by_cases hb' : a = d ∨ a = e ∨ a = f <;> by_cases hc' : b = d ∨ b = e ∨ b = f <;> simp [hb', hc']
+
 /-! ## `SingularVertices` -/
 
 /-- What the stack search leaves unvisited: the faces at `v` (other than the first, `t`) that
@@ -285,5 +314,118 @@ theorem removeAllConnected_spec (rem : List Face) (c : Nat) :
     | true => exact absurd ⟨a', ha', .step hr hbu hab⟩ hno
   · have := (List.mem_filter.mp ((hspec b).mp hb).1).2
     simpa using this
+
+end M3d.MeshDiag
+
+namespace M3d.MeshDiag
+open M3d.Surface
+
+/-! ## `SingularVertices` and `Clusters` agree -/
+
+theorem Reach.congr {α : Type} {adj1 adj2 : α → α → Bool} {U : List α} {a b : α} (ha : a ∈ U)
+    (h : ∀ x ∈ U, ∀ y ∈ U, adj1 x y = adj2 x y) (hr : Reach adj1 U a b) : Reach adj2 U a b := by
+  induction hr with
+  | refl => exact .refl _
+  | step hab hc hadj ih =>
+    rename_i b c
+    have hb : b ∈ U := by
+      rcases hab.eq_or_mem with h' | h'
+      · exact h' ▸ ha
+      · exact h'
+    exact .step ih hc (by rw [← h b hb c hc]; exact hadj)
+
+theorem adjAt_symm (p : Nat) (s t : Face) : adjAt p s t = adjAt p t s := by
+  simp only [adjAt, hasVert]
+  rw [Bool.eq_iff_iff]
+  simp only [List.any_eq_true, Bool.and_eq_true, bne_iff_ne, ne_eq, List.contains_iff_mem]
+  constructor <;> rintro ⟨c, h1, h2, h3⟩ <;> exact ⟨c, h3, h2, h1⟩
+
+theorem families_nonempty {α : Type} (adj : α → α → Bool) :
+    ∀ (n : Nat) (l : List α), ∀ F ∈ families adj n l, F ≠ [] := by
+  intro n
+  induction n with
+  | zero => intro l F h; simp [families] at h
+  | succ n ih =>
+    intro l F h
+    cases l with
+    | nil => simp [families] at h
+    | cons x rest =>
+      simp only [families, List.mem_cons] at h
+      rcases h with h | h
+      · subst h
+        exact List.ne_nil_of_mem (bfs_head_mem adj rest.length x [] rest)
+      · exact ih _ F h
+
+/-- The fan graph at `v` is connected iff `Clusters` finds at most one family there. -/
+theorem fanGraphConnected_iff_clusters (ts : List Tri) (hd : NoDegenerate ts) (v : Nat) :
+    FanGraphConnected ts v ↔ (clusters ts v).length ≤ 1 := by
+  have hFnd : (facesAt v (enum ts)).Nodup := (enum_nodup ts).filter _
+  have hnondeg : ∀ f ∈ facesAt v (enum ts), TriNondeg f.2 :=
+    fun f hf => hd _ (mem_enum_snd (List.mem_filter.mp hf).1)
+  have hat : ∀ f ∈ facesAt v (enum ts), hasVert v f.2 = true := fun f hf => (List.mem_filter.mp hf).2
+  have hadj : ∀ x ∈ facesAt v (enum ts), ∀ y ∈ facesAt v (enum ts), fanAdj x y = adjAt v x y :=
+    fun x hx y hy => fanAdj_eq_adjAt (hnondeg x hx) (hat x hx) (hat y hy)
+  obtain ⟨hperm, hconn, hsep⟩ := families_spec (adjAt v) (facesAt v (enum ts)).length
+    (facesAt v (enum ts)) (Nat.le_refl _) hFnd
+  have hcl : clusters ts v = families (adjAt v) (facesAt v (enum ts)).length (facesAt v (enum ts)) := rfl
+  rw [hcl]
+  constructor
+  · intro hfc
+    cases hfam : families (adjAt v) (facesAt v (enum ts)).length (facesAt v (enum ts)) with
+    | nil => simp
+    | cons A rest =>
+      cases rest with
+      | nil => simp
+      | cons B rest' =>
+        exfalso
+        rw [hfam] at hperm hconn hsep
+        obtain ⟨x, hxA, _⟩ := hconn A List.mem_cons_self
+        have hBne : B ≠ [] := families_nonempty (adjAt v) _ _ B (by rw [hfam]; simp)
+        obtain ⟨b, hbB⟩ := List.exists_mem_of_ne_nil B hBne
+        have hmemF : ∀ y, y ∈ facesAt v (enum ts) ↔ y ∈ (A :: B :: rest').flatten := fun y => hperm.mem_iff.symm
+        have hxF : x ∈ facesAt v (enum ts) := (hmemF x).mpr (by simp [hxA])
+        have hbF : b ∈ facesAt v (enum ts) := (hmemF b).mpr (by simp [hbB])
+        -- everything reachable from x stays in A
+        have hstay : ∀ y, Reach (adjAt v) (facesAt v (enum ts)) x y → y ∈ A := by
+          intro y hr
+          induction hr with
+          | refl => exact hxA
+          | step hab hc hadj' ih =>
+            rename_i b' c
+            have hcf := (hmemF c).mp hc
+            rw [List.flatten_cons, List.mem_append] at hcf
+            rcases hcf with h | h
+            · exact h
+            · obtain ⟨G, hG, hcG⟩ := List.mem_flatten.mp h
+              have := (List.pairwise_cons.mp hsep).1 G hG b' ih c hcG
+              rw [this] at hadj'; cases hadj'
+        have hbA : b ∈ A := hstay b (Reach.congr hxF hadj (hfc x hxF b hbF))
+        -- but b is in B as well: the flattened families are duplicate-free
+        have hnd : (A :: B :: rest').flatten.Nodup := hperm.nodup_iff.mpr hFnd
+        rw [List.flatten_cons, List.nodup_append] at hnd
+        exact hnd.2.2 b hbA b (by simp [hbB]) rfl
+  · intro hlen
+    cases hfam : families (adjAt v) (facesAt v (enum ts)).length (facesAt v (enum ts)) with
+    | nil =>
+      rw [hfam] at hperm
+      have : facesAt v (enum ts) = [] := by simpa using hperm.symm.eq_nil
+      intro s hs; rw [this] at hs; cases hs
+    | cons A rest =>
+      rw [hfam] at hlen hperm hconn
+      have : rest = [] := by
+        cases rest with
+        | nil => rfl
+        | cons _ _ => simp at hlen
+      subst this
+      obtain ⟨x, hxA, hall⟩ := hconn A List.mem_cons_self
+      have hmemF : ∀ y, y ∈ facesAt v (enum ts) ↔ y ∈ A := fun y => by
+        rw [← hperm.mem_iff]; simp
+      have hxF := (hmemF x).mpr hxA
+      have hadj' : ∀ x ∈ facesAt v (enum ts), ∀ y ∈ facesAt v (enum ts), adjAt v x y = fanAdj x y :=
+        fun x hx y hy => (hadj x hx y hy).symm
+      intro s hs t ht
+      have h1 := hall s ((hmemF s).mp hs)
+      have h2 := hall t ((hmemF t).mp ht)
+      exact Reach.congr hs hadj' (Reach.trans (Reach.symm (adjAt_symm v) hxF h1) h2)
 
 end M3d.MeshDiag
